@@ -230,6 +230,7 @@ def gen_cases(rng, tier):
         a["fmt_data"], a["fmt_weights"] = fd, fw
         cases.append(Case(kind, a, True))
     cases += gen_history_cases(rng, big)
+    cases += gen_dtype_cases(rng, big)
     # zero sizes: objects without any entry are written with an empty value line and must come back with their shape
     for shp in [(0,), (0, 3), (2, 0), (2, 0, 3), (0, 0), (1, 0, 1, 2)]:
         cases.append(Case("tensor", {"shape": list(shp), "bits": []}, False))
@@ -362,6 +363,109 @@ def gen_history_cases(rng, big):
         out.append(Case("matrix", {"m": m, "n": n, "rows": rows, "layout": ["negstride", "slice3d", "F", "transposed_view"][k % 4]}, True))
     return out
 
+
+
+# ---------------------------------------------------------------- element types other than float64 / int64
+# value range of each integer type, and the largest subscript a subscript array of that type can hold
+INT_RANGE = {"int8": (-2 ** 7, 2 ** 7 - 1), "uint8": (0, 2 ** 8 - 1), "int16": (-2 ** 15, 2 ** 15 - 1), "uint16": (0, 2 ** 16 - 1),
+             "int32": (-2 ** 31, 2 ** 31 - 1), "uint32": (0, 2 ** 32 - 1), "int64": (-2 ** 63, 2 ** 63 - 1), "uint64": (0, 2 ** 64 - 1),
+             "bool": (0, 1)}
+VAL_DTYPES = ["int64", "int32", "int16", "int8", "uint8", "uint16", "uint32", "uint64", "bool", "float32", "float16"]
+SUB_DTYPES = ["int32", "int16", "int8", "uint8", "uint16", "uint32", "uint64", "int64"]
+
+
+def _dtype_vals(rng, dt, n, nonzero=False):
+    """n values of element type dt, as the bit patterns of the float64 numbers equal to them (only values a double holds
+    exactly: the property speaks about double values; integers beyond 2^53 that are no doubles are outside it)"""
+    out = []
+    while len(out) < n:
+        if dt == "float32":
+            v = struct.unpack("<f", struct.pack("<I", (rng.randrange(0, 255) << 23) | rng.getrandbits(23) | (rng.getrandbits(1) << 31)))[0]
+        elif dt == "float16":
+            v = struct.unpack("<e", struct.pack("<H", (rng.randrange(0, 31) << 10) | rng.getrandbits(10) | (rng.getrandbits(1) << 15)))[0]
+        else:
+            lo, hi = INT_RANGE[dt]
+            v = rng.choice([lo, hi, 0, 1, min(hi, 2), max(lo, -1), rng.randint(lo, hi), rng.randint(max(lo, -100), min(hi, 100)),
+                            min(hi, 2 ** 53), max(lo, -2 ** 53), min(hi, 2 ** 53 - 1), min(hi, 2 ** 62), min(hi, 3 * 2 ** 60)])
+            if int(float(v)) != v:              # not a double: keep the 53 leading bits
+                v = int(float(v))
+                if not lo <= v <= hi:
+                    continue
+        if nonzero and v == 0:
+            continue
+        out.append(f2b(float(v)))
+    return out
+
+
+def gen_dtype_cases(rng, big):
+    """objects whose arrays hold another element type than float64 (values) / the platform integer (subscripts): dense data,
+    sparse values, matrices, weights / factors assigned to a Kruskal tensor, and sparse SUBSCRIPT arrays of narrow integer
+    types with subscripts up to the largest value the type holds. What must come back is the float64 object with the same
+    numbers (import always builds float64 / int64 arrays); `bits` are the patterns of those float64 numbers."""
+    out = []
+    for k in range(44 if big else 11):
+        dt = VAL_DTYPES[k % len(VAL_DTYPES)]
+        shp = tgen.rand_shape(rng, maxn=4, maxcells=40, maxdim=5)
+        bits = _dtype_vals(rng, dt, math.prod(shp))
+        out.append(Case("tensor", {"shape": shp, "bits": bits, "hist": "dtype", "dtype": dt}, len(set(bits)) > 1))
+    for k in range(44 if big else 11):
+        dt = VAL_DTYPES[(k + 3) % len(VAL_DTYPES)]
+        shp = tgen.rand_shape(rng, maxn=4, maxcells=60, maxdim=5)
+        nz = rng.randint(1, min(6, math.prod(shp)))
+        subs = rng.sample(tgen.all_subs(shp), nz)
+        bits = _dtype_vals(rng, dt, nz, nonzero=(rng.random() < 0.6))
+        out.append(Case("sptensor", {"shape": shp, "subs": subs, "bits": bits, "base": rng.choice([1, 1, 0, 2]), "hist": "vals_dtype",
+                                     "dtype": dt}, nz > 1))
+    for k in range(22 if big else 6):
+        dt = VAL_DTYPES[(k + 5) % len(VAL_DTYPES)]
+        m, n = rng.randint(1, 4), rng.randint(1, 4)
+        rows = [_dtype_vals(rng, dt, n) for _ in range(m)]
+        out.append(Case("matrix", {"m": m, "n": n, "rows": rows, "layout": rng.choice(["C", "F", "transposed_view"]), "dtype": dt}, m * n > 1))
+    for k in range(22 if big else 6):
+        dt = VAL_DTYPES[(k + 7) % len(VAL_DTYPES)]
+        shp = tgen.rand_shape(rng, maxn=4, maxcells=40, maxdim=4)
+        if len(shp) == 2:
+            shp = shp + [2]
+        cbits = _dtype_vals(rng, dt, math.prod(shp))
+        out.append(Case("ndarray", {"shape": shp, "cbits": cbits, "layout": rng.choice(["C", "F", "strided"]), "dtype": dt}, len(set(cbits)) > 1))
+    # Kruskal tensors: the constructor wants float64 factors, the public attributes take anything
+    for k in range(22 if big else 6):
+        dt = VAL_DTYPES[(k + 1) % len(VAL_DTYPES)]
+        dw = rng.choice([dt, dt, "float64", "int64", "float32"])
+        shp = tgen.rand_shape(rng, maxn=4, maxcells=10 ** 9, maxdim=4)
+        R = rng.randint(1, 3)
+        which = [rng.random() < 0.6 for _ in shp]
+        which[rng.randrange(len(shp))] = True
+        a = {"shape": shp, "weights": (rand_vals(rng, R) if dw == "float64" else _dtype_vals(rng, dw, R)),
+             "factors": [[(_dtype_vals(rng, dt, R) if which[j] else rand_vals(rng, R)) for _ in range(d)] for j, d in enumerate(shp)],
+             "hist": "assign_dtype", "dtype": dt, "wdtype": dw, "which": which, "mode": 0}
+        out.append(Case("ktensor", a, True))
+    # sparse subscript arrays of every integer type; modes as long as the type allows, subscripts up to the largest value the
+    # type holds (class C16-N4: `subs + 1` is computed in the type of the subscript array) and next to it
+    for k in range(64 if big else 24):
+        dt = SUB_DTYPES[k % len(SUB_DTYPES)]
+        top = min(INT_RANGE[dt][1], 2 ** 63 - 2)          # largest subscript the type holds (the mode size must stay an int64)
+        N = rng.randint(1, 3)
+        at_max = (k // len(SUB_DTYPES)) % 3 == 1 and top < 2 ** 62
+        shp = [rng.choice([1, 2, 3, 5, min(top + 1, 100), top + 1, top + 1, max(top // 2, 1), max(top - 1, 1)]) for _ in range(N)]
+        if at_max:
+            shp[rng.randrange(N)] = top + 1
+        nz = rng.randint(1, 4)
+        subs = []
+        while len(subs) < nz:
+            row = [min(max(rng.choice([d - 1, d - 2, d - 3, d // 2, rng.randrange(d), 0, 1]), 0), d - 1) for d in shp]
+            if not at_max:
+                row = [min(x, top - 1) for x in row]
+            if row not in subs:
+                subs.append(row)
+        if at_max and not any(x == top for r in subs for x in r):
+            j = shp.index(top + 1)
+            subs[0][j] = top
+            subs = [r for i_, r in enumerate(subs) if i_ == 0 or r != subs[0]]
+        big_top = max(max(r) for r in subs)
+        base = rng.choice([b for b in [1, 1, 0, 2, -3] if big_top + max(b, 1) < 2 ** 63])
+        out.append(Case("sptensor_big", {"shape": shp, "subs": subs, "bits": rand_vals(rng, len(subs)), "base": base, "subs_dtype": dt}, True))
+    return out
 
 # ---------------------------------------------------------------- malformed files (import side, line-sensitive)
 def _fv(rng):
@@ -744,8 +848,10 @@ def run_impl(c):
         elif c.op == "sptensor_big":
             base = a["base"]
             nd = len(a["subs"])
-            obj = ttb.sptensor(np.array(a["subs"], dtype=np.int64).reshape((nd, len(a["shape"]))),
+            obj = ttb.sptensor(np.array(a["subs"], dtype=a.get("subs_dtype", "int64")).reshape((nd, len(a["shape"]))),
                                _arr(np, a["bits"], (nd, 1)).copy(), tuple(a["shape"]))
+            if obj.subs.dtype != np.dtype(a.get("subs_dtype", "int64")):
+                return {"skip": "the constructor does not keep the subscript type"}
         elif c.op == "ktensor":
             R = len(a["weights"])
             obj = _build_ktensor(np, ttb, a)
@@ -753,10 +859,12 @@ def run_impl(c):
         elif c.op == "matrix":
             m, n = a["m"], a["n"]
             M = _arr(np, [b for row in a["rows"] for b in row], (m, n)).copy()
+            if a.get("dtype"):
+                M = M.astype(a["dtype"])
             if a["layout"] == "F":
                 M = np.asfortranarray(M)
             elif a["layout"] == "strided":
-                big = np.zeros((2 * m, 3 * n))
+                big = np.zeros((2 * m, 3 * n), dtype=M.dtype)
                 big[::2, 1::3] = M
                 M = big[::2, 1::3]
             elif a["layout"] == "transposed_view":
@@ -764,17 +872,21 @@ def run_impl(c):
             elif a["layout"] == "negstride":
                 M = np.ascontiguousarray(M[::-1, ::-1])[::-1, ::-1]
             elif a["layout"] == "slice3d":
-                A3 = np.zeros((m, 3, n), order=("F" if m % 2 else "C"))
+                A3 = np.zeros((m, 3, n), order=("F" if m % 2 else "C"), dtype=M.dtype)
                 A3[:, 1, :] = M
                 M = A3[:, 1, :]
             obj = M
             nd = m * n
         elif c.op == "ndarray":
             M = _arr(np, a["cbits"], tuple(a["shape"]), "C").copy()
+            if a.get("dtype"):
+                M = M.astype(a["dtype"])
             obj = _relayout(np, M, a["layout"])
             nd = len(a["cbits"])
         else:
             raise ValueError(c.op)
+        if a.get("dtype") and _dtype_lost(np, ttb, obj, a):
+            return {"skip": "the object does not hold the requested element type"}
         if a.get("hist"):
             # the object as it is just before export_data, read entry by entry with plain indexing (no ravel / reshape)
             pre = _pre(np, ttb, obj)
@@ -826,7 +938,7 @@ def _relayout(np, M, layout):
     if layout == "F":
         return np.asfortranarray(M)
     if layout == "strided":
-        big = np.zeros([2 * d + 1 for d in M.shape], order="F")
+        big = np.zeros([2 * d + 1 for d in M.shape], order="F", dtype=M.dtype)
         view = big[tuple(slice(1, None, 2) for _ in M.shape)]
         view[...] = M
         return view
@@ -844,6 +956,8 @@ def _build_tensor(np, ttb, a):
     h = a.get("hist")
     if not h:
         return ttb.tensor(X.copy(order="F"), shape)
+    if h == "dtype":
+        return ttb.tensor(X.astype(a["dtype"]))
     if h == "ctor_C":
         return ttb.tensor(np.ascontiguousarray(X))
     if h == "ctor_nocopy":
@@ -865,6 +979,8 @@ def _build_sptensor(np, ttb, a):
         return ttb.sptensor(shape=shape)
     subs = np.array(a["subs"], dtype=int).reshape((nz, len(shape)))
     vals = _arr(np, a["bits"], (nz, 1)).copy()
+    if h == "vals_dtype":
+        return ttb.sptensor(subs, vals.astype(a["dtype"]), shape)
     if h == "ctor_nocopy":
         return ttb.sptensor(np.asfortranarray(subs), vals, shape, copy=False)
     S = ttb.sptensor(subs, vals, shape)
@@ -906,10 +1022,27 @@ def _build_ktensor(np, ttb, a):
         K.redistribute(a["mode"])
     elif h == "arrange":
         K.arrange()
+    elif h == "assign_dtype":
+        if a["wdtype"] != "float64":
+            K.weights = w.astype(a["wdtype"])
+        for n in range(len(facs)):
+            if a["which"][n]:
+                K.factor_matrices[n] = facs[n].astype(a["dtype"])
     elif h == "weights_strided":
         K.weights = _relayout(np, w, "strided")
         K.factor_matrices[a["mode"]] = _relayout(np, facs[a["mode"]], "negstride")
     return K
+
+
+def _dtype_lost(np, ttb, obj, a):
+    want = np.dtype(a["dtype"])
+    if isinstance(obj, ttb.tensor):
+        return obj.data.dtype != want
+    if isinstance(obj, ttb.sptensor):
+        return obj.vals.dtype != want
+    if isinstance(obj, ttb.ktensor):
+        return not any(f.dtype == want for f in obj.factor_matrices)
+    return obj.dtype != want
 
 
 def _pre(np, ttb, obj):
@@ -1072,6 +1205,8 @@ def coq_check(c, o):
         if got is None:
             return "false"           # e.g. negative subscripts stored (C19-N14): not an object of the model
         return f"c16_lines_ok {b} {glines(o['lines'])} (Some {got})"
+    if "skip" in o:
+        return None
     if "exc" in o:
         return "false"
     if c.op == "sptensor_big":
@@ -1170,6 +1305,13 @@ def _neg_sub(c):
     return False
 
 
+def _subs_at_max(c):
+    dt = c.args.get("subs_dtype")
+    if c.op != "sptensor_big" or dt not in INT_RANGE:
+        return False
+    return any(x == INT_RANGE[dt][1] for r in c.args["subs"] for x in r)
+
+
 TRIGGERS = {
     # C19-N14 (open, owned by C19): sptensor.__init__ checks only the upper bound, so import_data with a too large
     # index_base returns a sparse tensor with NEGATIVE subscripts instead of rejecting the file; the model rejects
@@ -1177,6 +1319,10 @@ TRIGGERS = {
     # C16-N2: objects of order 0 (default-constructed empty tensor / sptensor / ktensor, 0-d array); no case is generated
     # (the object model starts at order 1), the witness replays it
     "order_zero": lambda c: c.op in ("tensor", "sptensor", "ktensor", "ndarray") and c.args.get("shape") == [],
+    # C16-N4: export_sparse_array computes `A.subs[i, :] + 1` in the element type of the subscript array: a stored subscript
+    # equal to the largest value of that type wraps (uint8 255 -> 0, int8 127 -> -128, ...). Exactly: the subscript array
+    # has an integer type narrower than the file's int64 texts need AND some stored subscript equals that type's maximum
+    "subs_at_dtype_max": _subs_at_max,
 }
 
 
@@ -1237,4 +1383,25 @@ def _w_order0():
         shutil.rmtree(d, ignore_errors=True)
 
 
-WITNESSES = {"C19-N14": _w_negsub, "C16-N2": _w_order0, "C16-N3": _w_crlf_rank0}
+def _w_subs_wrap():
+    import numpy as np
+    import pyttb as ttb
+    d = tempfile.mkdtemp(prefix="c16_")
+    try:
+        path = os.path.join(d, "w.tns")
+        S = ttb.sptensor(np.array([[0, 1], [255, 2]], dtype=np.uint8), np.array([[1.5], [2.5]]), (256, 3))
+        if S.subs.dtype != np.uint8:
+            return None                      # the constructor no longer keeps a narrow subscript type: class gone
+        ttb.export_data(S, path)
+        line = open(path).read().split("\n")[5]
+        if line.split(" ")[0] != "256":
+            return f"stored subscript 255 in a uint8 subscript array is written as {line.split(' ')[0]!r} (1-based: 256)"
+        R = ttb.import_data(path)
+        return None if R.subs.tolist() == [[0, 1], [255, 2]] else "uint8 subscripts not reproduced"
+    except Exception as ex:
+        return f"uint8 subscript 255: {type(ex).__name__}"
+    finally:
+        shutil.rmtree(d, ignore_errors=True)
+
+
+WITNESSES = {"C19-N14": _w_negsub, "C16-N2": _w_order0, "C16-N3": _w_crlf_rank0, "C16-N4": _w_subs_wrap}
